@@ -147,3 +147,108 @@ func StallTrial(p *sut.Proc, idle time.Duration, n, size int) (out *StallOutcome
 	}
 	return
 }
+
+// LagOutcome of one lagging-member trial.
+type LagOutcome struct {
+	Findings     []*check.Finding
+	Inconclusive string
+	Sent         int
+	Received     map[string]int
+	Desc         string
+}
+
+// LagTrial: a member stops reading for a while (shorter than any timeout)
+// and then resumes, while another member relays n numbered custom messages
+// of `size` bytes to the session - more than the lagging member's socket
+// buffers and send queue hold. A slow member is still a member: it must
+// receive every relay exactly once and in the sender's order (C02).
+func LagTrial(p *sut.Proc, n, size int, pause time.Duration) (out *LagOutcome) {
+	out = &LagOutcome{Received: map[string]int{}, Desc: fmt.Sprintf("lag: %d numbered custom messages of %d bytes relayed while one member does not read for %v", n, size, pause)}
+	lf := func(clause, format string, a ...any) *check.Finding {
+		return &check.Finding{Props: []string{"C02", "C14"}, Clause: clause, Trigger: "lagging-member", Detail: out.Desc + ": " + fmt.Sprintf(format, a...), Engine: "E4 lagging member"}
+	}
+	defer func() {
+		if r := recover(); r != nil {
+			if !p.Alive() {
+				out.Findings = append(out.Findings, lf("process/exited", "the server process ended: %s\n%s", p.ExitInfo(), p.CrashHead(4000)))
+				return
+			}
+			out.Inconclusive = fmt.Sprint("lag trial: ", r)
+		}
+	}()
+	must := func(err error) {
+		if err != nil {
+			panic(err)
+		}
+	}
+	w1 := scen.MustDial(p, "")
+	defer w1.Close()
+	_, _, err := w1.Join("")
+	must(err)
+	lag := scen.MustDial(p, "")
+	defer lag.Close()
+	_, _, err = lag.Join(w1.SID)
+	must(err)
+	w3 := scen.MustDial(p, "")
+	defer w3.Close()
+	_, _, err = w3.Join(w1.SID)
+	must(err)
+	w1.Barrier()
+	lag.Barrier()
+	w3.Barrier()
+	for _, c := range []*scen.C{w1, lag, w3} {
+		c.Timeout = 60 * time.Second
+	}
+	lag.StopReading()
+	done := make(chan error, 1)
+	go func() {
+		body := make([]byte, size)
+		for i := 1; i <= n; i++ {
+			copy(body, fmt.Sprintf("%08d|", i))
+			if err := w1.Custom(body); err != nil {
+				done <- err
+				return
+			}
+		}
+		done <- nil
+	}()
+	time.Sleep(pause)
+	lag.ResumeReading()
+	if err := <-done; err != nil {
+		panic(fmt.Errorf("the sender could not write its messages: %w", err))
+	}
+	out.Sent = n
+	_, err = w1.Barrier()
+	must(err)
+	for name, c := range map[string]*scen.C{"lagging member": lag, "steady member": w3} {
+		win, err := c.Barrier()
+		if err != nil {
+			out.Findings = append(out.Findings, lf("lag/member-lost", "the %s's connection failed: %v", name, err))
+			return
+		}
+		next, got, dup, reord := 1, 0, 0, 0
+		seen := map[int]bool{}
+		for _, e := range win {
+			m, ok := e.M.(*hagallpb.CustomMessageBroadcast)
+			if !ok || len(m.Body) < 9 {
+				continue
+			}
+			var k int
+			fmt.Sscanf(string(m.Body[:8]), "%d", &k)
+			got++
+			if seen[k] {
+				dup++
+			}
+			seen[k] = true
+			if k < next {
+				reord++
+			}
+			next = k + 1
+		}
+		out.Received[name] = got
+		if len(seen) != n || dup != 0 || reord != 0 {
+			out.Findings = append(out.Findings, lf("relay/not-exactly-once", "the %s received %d of the %d relays (%d distinct, %d duplicated, %d out of order)", name, got, n, len(seen), dup, reord))
+		}
+	}
+	return
+}
